@@ -294,3 +294,9 @@ def check(cx):
     # ---- C07.12 (construct shared with C15.11) ---------------------------------------------------------------------------
     cx.include(c15, {"C15.11"}, "C07.12", "shared with C15.11: SET NOT NULL always leaves the column NOT NULL (it stores the constant, not the "
                "instruction's previous-state flag); otherwise a repeated migration makes the column nullable and NULLs are committed", floor=2)
+
+    # ---- C07.13 (construct shared with C04.2) --------------------------------------------------------------------------
+    from . import c04 as _c04
+    cx.include(_c04, {"C04.2"}, "C07.13", "shared with C04.2: the unique index is built and probed through snapshot-aware reads only - who reads a "
+               "stored tuple raw (Tuple::is_deleted, get_tuple_at_unchecked) is a frozen table; an index back-fill that skips every "
+               "row carrying a deletion mark leaves out rows whose DELETE was rolled back, and a duplicate key is accepted later", floor=2)
